@@ -21,7 +21,7 @@ with open(os.path.join(root, "MATRIX.md"), "w") as fh:
     fh.write("| seed | target | " + " | ".join(p[1:] for p in props) + " | caught |\n|---|---|" + "---|" * (len(props) + 1) + "\n")
     miss = []
     for sid, meta, det in rows:
-        tgt = meta.get("breaks_property", "-")
+        tgt = meta.get("breaks_property") or "-"
         if det is None:
             fh.write(f"| {sid} | {tgt} | " + " | ".join("?" for _ in props) + " | not run |\n")
             continue
